@@ -1259,6 +1259,100 @@ fn run_xfer(ws: &[&str]) -> (String, String) {
     (obs, oracle)
 }
 
+
+// ------------------------------------------------------------------------------------------
+// (i'') a blocking `write` that is resumed (coverage triage, session 4: io.rs `poll_write_full`, the return of the
+// bytes already written when a later iteration of the same call fails)
+
+/// `bwr n=N pre=P act=close|read k=K`: a pipe holding P bytes; a *blocking* `write` of N bytes is polled once (it
+/// writes what fits and stays pending when the pipe is full), then the reader either closes its end or reads K
+/// bytes, then the same `write` future is polled again.  POSIX: a write that has transferred some bytes and then
+/// meets an error returns the count; with nothing transferred and no reader it fails with EPIPE.
+fn run_bwr(ws: &[&str]) -> (String, String) {
+    let n = kv_n(ws, "n");
+    let pre = kv_n(ws, "pre").min(PIPE_SIZE);
+    let k = kv_n(ws, "k");
+    let act = kv(ws, "act").unwrap_or("close");
+    let vs = VirtualSystem::new();
+    let (rfd, wfd) = vs.pipe().unwrap();
+    let other = vs.clone();
+    let prefill = op_data(0, pre);
+    let data = op_data(1, n);
+    let show = |r: &Poll<Result<usize, Errno>>| -> String {
+        match r {
+            Poll::Ready(Ok(m)) => format!("ok {m}"),
+            Poll::Ready(Err(e)) => errno_name(*e),
+            Poll::Pending => "pend".into(),
+        }
+    };
+    if pre > 0 && other.write(wfd, &prefill).now_or_never() != Some(Ok(pre)) {
+        return ("prefill-failed".into(), "FAIL:prefill".into());
+    }
+    let flag = Arc::new(Flag(AtomicBool::new(false)));
+    let waker = Waker::from(Arc::clone(&flag));
+    let mut cx = Context::from_waker(&waker);
+    let mut fut = Box::pin(vs.write(wfd, &data));
+    let p1 = fut.as_mut().poll(&mut cx);
+    let mut obs = format!("p1={}", show(&p1));
+    let mut read_back: Vec<u8> = vec![];
+    let mut reader_open = true;
+    let mut p2txt = "-".to_string();
+    if p1.is_pending() {
+        if act == "close" {
+            other.close(rfd).ok();
+            reader_open = false;
+        } else {
+            let mut buf = vec![0u8; k];
+            match other.read(rfd, &mut buf).now_or_never() {
+                Some(Ok(m)) => {
+                    read_back.extend_from_slice(&buf[..m]);
+                    obs = format!("{obs} rd={m}");
+                }
+                Some(Err(e)) => obs = format!("{obs} rd={}", errno_name(e)),
+                None => obs = format!("{obs} rd=pend"),
+            }
+        }
+        let p2 = fut.as_mut().poll(&mut cx);
+        p2txt = show(&p2);
+    }
+    obs = format!("{obs} p2={p2txt}");
+    drop(fut);
+    // what is left in the pipe
+    other.close(wfd).ok();
+    if reader_open {
+        let mut left: Vec<u8> = vec![];
+        let mut buf = vec![0u8; 4096];
+        for _ in 0..8 {
+            match other.read(rfd, &mut buf).now_or_never() {
+                Some(Ok(0)) | None | Some(Err(_)) => break,
+                Some(Ok(m)) => left.extend_from_slice(&buf[..m]),
+            }
+        }
+        obs = format!("{obs} left={}:{}", left.len(), hash_bytes(&left));
+        read_back.extend_from_slice(&left);
+    } else {
+        obs = format!("{obs} left=closed");
+    }
+    // the statement, directly
+    let room = PIPE_SIZE - pre;
+    let first = if n == 0 || n <= room { n } else if n <= PIPE_BUF || room == 0 { 0 } else { room };
+    let blocked = n > 0 && n > room;
+    let oracle = if !blocked {
+        if obs.starts_with(&format!("p1=ok {n} ")) { "ok".to_string() } else { "FAIL:unblocked-write".into() }
+    } else if !p1.is_pending() {
+        "FAIL:write-did-not-block".into()
+    } else if act == "close" {
+        let want = if first > 0 { format!("ok {first}") } else { "EPIPE".to_string() };
+        if p2txt == want { "ok".into() } else { format!("FAIL:resumed-write-after-close(want {want})") }
+    } else {
+        // every byte the pipe accepted is a prefix of prefill ++ data, in order
+        let mut all = prefill.clone();
+        all.extend_from_slice(&data);
+        if all.starts_with(&read_back) { "ok".into() } else { "FAIL:resumed-write-data".into() }
+    };
+    (obs, oracle)
+}
+
 // ------------------------------------------------------------------------------------------
 // (ii-b) shell-level flows
 
@@ -1500,7 +1594,15 @@ fn run_sh(ws: &[&str]) -> (String, String) {
     if neg && (var || st.is_some()) {
         return ("bad-case".into(), "-".into());
     }
-    let script = if neg { format!("{prologue}! {script}") } else { format!("{prologue}{script}") };
+    // `neg=2`: a negated pipeline that FAILS (`! { flow; st 5; }` -> status 0); `neg=3`: `set -n` first (noexec: the
+    // pipeline is not executed at all, nothing flows)
+    let negk = kv_n(ws, "neg");
+    let script = match negk {
+        0 => format!("{prologue}{script}"),
+        1 => format!("{prologue}! {script}"),
+        2 => format!("{prologue}! {{ {script}\nst 5\n}}"),
+        _ => format!("{prologue}set -n\n{script}"),
+    };
     // Rust-side statement of the property on this flow
     let mut want = data.clone();
     if matches!(src, "var" | "dbl" | "here") {
@@ -1515,6 +1617,9 @@ fn run_sh(ws: &[&str]) -> (String, String) {
     }
     if var {
         want = trim_nl(lossy(want));
+    }
+    if negk == 3 {
+        want.clear();
     }
 
     PAYLOAD.with(|p| *p.borrow_mut() = data.clone());
@@ -1559,8 +1664,9 @@ fn run_sh(ws: &[&str]) -> (String, String) {
         }
     } else if neg {
         obs = format!("{obs} st={}", out.exit_status);
-        if out.exit_status != 1 {
-            return (obs, format!("FAIL:negated-status(got {})", out.exit_status));
+        let want_st = if negk == 1 { 1 } else { 0 };
+        if out.exit_status != want_st {
+            return (obs, format!("FAIL:negated-status(got {} want {want_st})", out.exit_status));
         }
     } else if !out.stderr.is_empty() || out.exit_status != 0 {
         obs = format!("ERR(status={},stderr={}) {}", out.exit_status, out.stderr.len(), obs);
@@ -2357,6 +2463,7 @@ fn run_case(case: &str) -> (String, String) {
         Some(&"rd") => run_rd(&ws[1..]),
         Some(&"rp") => run_rp(&ws[1..]),
         Some(&"tw") => run_tw(&ws[1..]),
+        Some(&"bwr") => run_bwr(&ws[1..]),
         _ => run_ops(case),
     }
 }
@@ -2596,6 +2703,33 @@ fn main() {
                 ),
                 false,
             );
+        }
+    }
+
+    // coverage triage (session 4): a blocking write resumed after the reader closed / read (io.rs poll_write_full),
+    // a negated pipeline that fails and a pipeline under `set -n` (pipeline.rs `execute`)
+    for &pre in &[0usize, 1, PIPE_BUF - 1, PIPE_BUF, PIPE_SIZE - PIPE_BUF + 1, PIPE_SIZE - 1, PIPE_SIZE] {
+        for &n in &[0usize, 1, PIPE_BUF, PIPE_BUF + 1, PIPE_SIZE, PIPE_SIZE + 1, 3 * PIPE_SIZE] {
+            run(&format!("bwr n={n} pre={pre} act=close k=0"), false);
+            for &k in &[1usize, PIPE_BUF - 1, PIPE_BUF, PIPE_SIZE, 4096] {
+                run(&format!("bwr n={n} pre={pre} act=read k={k}"), false);
+            }
+        }
+    }
+    let mut rng6 = Rng::new(opts.seed ^ 0xC14_0600);
+    for &n in &[0usize, 3, PIPE_BUF + 1, PIPE_SIZE + 1, 3 * PIPE_SIZE + 2] {
+        for negk in 2..=3 {
+            for kind in ["out", "file"] {
+                let shape = *rng6.pick(&["-", "c", "cc", "yc", "gc"]);
+                let src = *rng6.pick(&["gen", "file", "var"]);
+                run(
+                    &format!(
+                        "sh n={n} pat=1 per=0 nl=1 src={src} shape={shape} kind={kind} pro=0 seed={} neg={negk}",
+                        rng6.below(1_000_000)
+                    ),
+                    false,
+                );
+            }
         }
     }
 
